@@ -86,7 +86,9 @@ fn check_parked(r: &ExecResult, cap: usize, burst: usize) -> Vec<Finding> {
 
 pub fn scenarios(tier: Tier) -> Vec<Scenario> {
     let mut v = vec![];
-    let mut add_parked = |cap: usize, burst: usize, np: u32, bound: u32| {
+    // via: the producers go through the Dispatcher interface (the handle middlewares, thunks and
+    // subscribers are given) instead of StoreImpl::dispatch
+    let mut add_parked_x = |cap: usize, burst: usize, np: u32, via: bool, bound: u32| {
         let mut spec = StoreSpec::new(1, cap, Pol::Block);
         spec.reducer_gate = true;
         let mut prog = Program::new(spec);
@@ -96,7 +98,12 @@ pub fn scenarios(tier: Tier) -> Vec<Scenario> {
         for p in 0..np {
             let n = per.min(left);
             left -= n;
-            let ops = (0..n).map(|q| Op::Dispatch(Act::new(100 * (p + 1) + q as u32))).collect();
+            let ops = (0..n)
+                .map(|q| {
+                    let a = Act::new(100 * (p + 1) + q as u32);
+                    if via { Op::DispatchVia(a) } else { Op::Dispatch(a) }
+                })
+                .collect();
             prog = prog.thread(&format!("p{}", p), ops);
         }
         let mut main = vec![Op::Dispatch(Act::new(PLUG)), Op::Quiesce, Op::SpawnAll, Op::Quiesce];
@@ -105,8 +112,14 @@ pub fn scenarios(tier: Tier) -> Vec<Scenario> {
         }
         main.extend([Op::JoinAll, Op::Stop]);
         prog = prog.main(main);
-        v.push(scn(format!("C05/parked/cap{}n{}P{}", cap, burst, np), prog, bound, opts_elide(), move |r, _| check_parked(r, cap, burst)));
+        v.push(scn(format!("C05/parked/cap{}n{}P{}{}", cap, burst, np, if via { "via" } else { "" }), prog, bound, opts_elide(), move |r, _| check_parked(r, cap, burst)));
     };
+    add_parked_x(1, 3, 1, true, 2);
+    if tier == Tier::Thorough {
+        add_parked_x(2, 4, 2, true, 3);
+        add_parked_x(1, 2, 1, true, 4);
+    }
+    let mut add_parked = |cap: usize, burst: usize, np: u32, bound: u32| add_parked_x(cap, burst, np, false, bound);
     let caps: &[usize] = if tier == Tier::Quick { &[1, 2] } else { &[1, 2, 3] };
     for &cap in caps {
         for extra in 1..=2usize {
